@@ -10,7 +10,7 @@ case "$ID" in
   C06) TARGET=c06_parse;; C12) TARGET=c12_corrupt;; C13) TARGET=c13_total;;
   *) echo "no fuzz target for $ID"; exit 0;;
 esac
-SECS="${VERIF_FUZZ_SECS:-120}"
+SECS="${VERIF_FUZZ_SECS:-300}"
 JOBS="${VERIF_FUZZ_JOBS:-8}"
 SEED="${VERIF_SEED:-20261001}"; [ "$SEED" = "0" ] && SEED=1
 export CARGO_NET_OFFLINE=true
